@@ -307,8 +307,8 @@ fn render_item<S: Into<Shape>>(r: Result<S, Error>, out: &mut Vec<W>) {
     }
 }
 
-fn run_rops<S: ReadableShape + Into<Shape>>(
-    mut reader: ShapeReader<Source>,
+fn run_rops<T: std::io::Read + std::io::Seek, S: ReadableShape + Into<Shape>>(
+    mut reader: ShapeReader<T>,
     ops: &[ROp],
     cap: usize,
     out: &mut Vec<W>,
@@ -450,20 +450,20 @@ fn case_read(c: &mut Cur) -> Result<Vec<W>, BadCase> {
                     fb(h.bbox.min.z), fb(h.bbox.max.z), fb(h.bbox.min.m), fb(h.bbox.max.m),
                 ]);
                 match req {
-                    -1 => run_rops::<Shape>(reader, &ops, cap, &mut out),
-                    1 => run_rops::<Point>(reader, &ops, cap, &mut out),
-                    21 => run_rops::<PointM>(reader, &ops, cap, &mut out),
-                    11 => run_rops::<PointZ>(reader, &ops, cap, &mut out),
-                    3 => run_rops::<Polyline>(reader, &ops, cap, &mut out),
-                    23 => run_rops::<PolylineM>(reader, &ops, cap, &mut out),
-                    13 => run_rops::<PolylineZ>(reader, &ops, cap, &mut out),
-                    5 => run_rops::<Polygon>(reader, &ops, cap, &mut out),
-                    25 => run_rops::<PolygonM>(reader, &ops, cap, &mut out),
-                    15 => run_rops::<PolygonZ>(reader, &ops, cap, &mut out),
-                    8 => run_rops::<Multipoint>(reader, &ops, cap, &mut out),
-                    28 => run_rops::<MultipointM>(reader, &ops, cap, &mut out),
-                    18 => run_rops::<MultipointZ>(reader, &ops, cap, &mut out),
-                    31 => run_rops::<Multipatch>(reader, &ops, cap, &mut out),
+                    -1 => run_rops::<_, Shape>(reader, &ops, cap, &mut out),
+                    1 => run_rops::<_, Point>(reader, &ops, cap, &mut out),
+                    21 => run_rops::<_, PointM>(reader, &ops, cap, &mut out),
+                    11 => run_rops::<_, PointZ>(reader, &ops, cap, &mut out),
+                    3 => run_rops::<_, Polyline>(reader, &ops, cap, &mut out),
+                    23 => run_rops::<_, PolylineM>(reader, &ops, cap, &mut out),
+                    13 => run_rops::<_, PolylineZ>(reader, &ops, cap, &mut out),
+                    5 => run_rops::<_, Polygon>(reader, &ops, cap, &mut out),
+                    25 => run_rops::<_, PolygonM>(reader, &ops, cap, &mut out),
+                    15 => run_rops::<_, PolygonZ>(reader, &ops, cap, &mut out),
+                    8 => run_rops::<_, Multipoint>(reader, &ops, cap, &mut out),
+                    28 => run_rops::<_, MultipointM>(reader, &ops, cap, &mut out),
+                    18 => run_rops::<_, MultipointZ>(reader, &ops, cap, &mut out),
+                    31 => run_rops::<_, Multipatch>(reader, &ops, cap, &mut out),
                     _ => return None,
                 }
             }
@@ -652,6 +652,62 @@ fn case_alloc(c: &mut Cur) -> Result<Vec<W>, BadCase> {
 /// 1 = a row missing the field, 2 = a row whose idx has the wrong value type.
 /// reader op: 0 j (iterate pairs, at most j, -1 = all) | 2 k (seek) | 3 (count).
 /// -> per call result; entry counts (shp records, shx entries, dbf rows); per reader op its rendering.
+/// The calls of a history on the complete reader, rendered (shared by the in-memory and the path cases).
+fn run_pair_ops<T: std::io::Read + std::io::Seek, D: std::io::Read + std::io::Seek>(reader: &mut Reader<T, D>, ops: &[ROp], o: &mut Vec<W>) {
+    for op in ops {
+            match op {
+            ROp::Iter(j) => {
+                let limit = if *j < 0 { usize::MAX } else { *j as usize };
+                let mut items = vec![];
+                let mut ended = false;
+                {
+                    let mut it = reader.iter_shapes_and_records();
+                    while items.len() < limit {
+                        match it.next() {
+                            None => { ended = true; break; }
+                            Some(x) => items.push(x),
+                        }
+                    }
+                }
+                o.push(items.len() as W);
+                for it in items {
+                    match it {
+                        Ok((s, rec)) => {
+                            o.push(0);
+                            render_shape(&s, o);
+                            match rec.get("idx") {
+                                Some(dbase::FieldValue::Numeric(Some(v))) => o.push(*v as W),
+                                _ => o.push(-1),
+                            }
+                        }
+                        Err(e) => { o.push(1); render_error(&e, o); }
+                    }
+                }
+                o.push(ended as W);
+            }
+            ROp::Seek(k) => render_unit_res(&reader.seek(*k as usize), o),
+            ROp::Count => match reader.shape_count() {
+                Ok(n) => o.extend([0, n as W]),
+                Err(e) => { o.push(1); render_error(&e, o); }
+            },
+            ROp::ReadAll => match reader.read() {
+                Ok(v) => {
+                    o.extend([0, v.len() as W]);
+                    for (s, rec) in v {
+                        render_shape(&s, o);
+                        match rec.get("idx") {
+                            Some(dbase::FieldValue::Numeric(Some(x))) => o.push(*x as W),
+                            _ => o.push(-1),
+                        }
+                    }
+                }
+                Err(e) => { o.push(1); render_error(&e, o); }
+            },
+            _ => {}
+        }
+    }
+}
+
 fn case_pair(c: &mut Cur) -> Result<Vec<W>, BadCase> {
     use std::convert::TryInto;
     use std::io::Cursor;
@@ -732,58 +788,7 @@ fn case_pair(c: &mut Cur) -> Result<Vec<W>, BadCase> {
         };
         o.push(0);
         let mut reader = Reader::new(sr, dr);
-        for op in &ops {
-            match op {
-                ROp::Iter(j) => {
-                    let limit = if *j < 0 { usize::MAX } else { *j as usize };
-                    let mut items = vec![];
-                    let mut ended = false;
-                    {
-                        let mut it = reader.iter_shapes_and_records();
-                        while items.len() < limit {
-                            match it.next() {
-                                None => { ended = true; break; }
-                                Some(x) => items.push(x),
-                            }
-                        }
-                    }
-                    o.push(items.len() as W);
-                    for it in items {
-                        match it {
-                            Ok((s, rec)) => {
-                                o.push(0);
-                                render_shape(&s, &mut o);
-                                match rec.get("idx") {
-                                    Some(dbase::FieldValue::Numeric(Some(v))) => o.push(*v as W),
-                                    _ => o.push(-1),
-                                }
-                            }
-                            Err(e) => { o.push(1); render_error(&e, &mut o); }
-                        }
-                    }
-                    o.push(ended as W);
-                }
-                ROp::Seek(k) => render_unit_res(&reader.seek(*k as usize), &mut o),
-                ROp::Count => match reader.shape_count() {
-                    Ok(n) => o.extend([0, n as W]),
-                    Err(e) => { o.push(1); render_error(&e, &mut o); }
-                },
-                ROp::ReadAll => match reader.read() {
-                    Ok(v) => {
-                        o.extend([0, v.len() as W]);
-                        for (s, rec) in v {
-                            render_shape(&s, &mut o);
-                            match rec.get("idx") {
-                                Some(dbase::FieldValue::Numeric(Some(x))) => o.push(*x as W),
-                                _ => o.push(-1),
-                            }
-                        }
-                    }
-                    Err(e) => { o.push(1); render_error(&e, &mut o); }
-                },
-                _ => {}
-            }
-        }
+        run_pair_ops(&mut reader, &ops, &mut o);
         o
     }));
     match rr {
@@ -896,6 +901,189 @@ fn case_copy(c: &mut Cur) -> Result<Vec<W>, BadCase> {
     Ok(out)
 }
 
+
+/// Kind 16: the path-based API on a scratch directory.
+/// [complete 0|1; nstale; (name; size)*; name; history; rmname; nq; (name; want bytes 0|1)*; nops; ops]
+/// * stale files (magic + zeros, `size` bytes) are put into a fresh directory first;
+/// * complete = 0: history = ending (0 drop | 1 finalize, drop); ncalls; calls as in kind 4 (0 finalize | 1 ctor),
+///   run on `ShapeWriter::from_path(dir/name)`; ops as in kind 5, run on `ShapeReader::from_path(dir/name)` (generic);
+/// * complete = 1: history = ncalls; (row kind; ctor)* as in kind 9 on `Writer::from_path`; ops as in kind 9 on
+///   `Reader::from_path`;
+/// * after the writer is gone `rmname` (if not empty) is removed;
+/// -> ncalls; call results; removed 0|1; number of files in the directory; per query -1 (absent) | -2 (not one
+///    of the library's own files) | size [bytes]; then the reader part as in kind 5 / kind 9 (open error: 1 code).
+const K_PATH: W = 16;
+static PATH_CASES: std::sync::atomic::AtomicU64 = std::sync::atomic::AtomicU64::new(0);
+
+fn case_path(c: &mut Cur) -> Result<Vec<W>, BadCase> {
+    use std::convert::TryInto;
+    use std::os::unix::ffi::OsStrExt;
+    let complete = c.next()? == 1;
+    let mut stale = vec![];
+    for _ in 0..c.n()? {
+        let n = read_bytes(c)?;
+        stale.push((n, c.n()?));
+    }
+    let name = read_bytes(c)?;
+    let ending = if complete { 0 } else { c.next()? };
+    let ncalls = c.n()?;
+    let mut calls = vec![];
+    for _ in 0..ncalls {
+        let k = c.next()?;
+        if !complete && k == 0 {
+            calls.push((k, None));
+            continue;
+        }
+        if !complete && k != 1 {
+            return Err(BadCase);
+        }
+        match build(read_ctor(c)?) {
+            Ok(Shape::NullShape) => return Err(BadCase),
+            Ok(s) => calls.push((k, Some(s))),
+            Err(()) => return Ok(vec![-3]),
+        }
+    }
+    let rmname = read_bytes(c)?;
+    let mut queries = vec![];
+    for _ in 0..c.n()? {
+        let n = read_bytes(c)?;
+        queries.push((n, c.next()? == 1));
+    }
+    let nops = c.n()?;
+    let mut ops = vec![];
+    for _ in 0..nops {
+        ops.push(match c.next()? {
+            0 => ROp::Iter(c.next()?),
+            1 if !complete => ROp::Nth(c.next()?),
+            2 => ROp::Seek(c.next()?),
+            3 => ROp::Count,
+            4 if !complete => ROp::Hint,
+            5 if !complete => ROp::SkipTake(c.next()?, c.next()?),
+            6 => ROp::ReadAll,
+            _ => return Err(BadCase),
+        });
+    }
+    if !c.at_end() {
+        return Err(BadCase);
+    }
+    let base = std::env::var("SFV_TMP").map(std::path::PathBuf::from).unwrap_or_else(|_| std::env::temp_dir());
+    let dir = base.join(format!(
+        "p16_{}_{}",
+        std::process::id(),
+        PATH_CASES.fetch_add(1, std::sync::atomic::Ordering::Relaxed)
+    ));
+    let _ = std::fs::remove_dir_all(&dir);
+    std::fs::create_dir_all(&dir).map_err(|_| BadCase)?;
+    let at = |n: &[u8]| dir.join(std::ffi::OsStr::from_bytes(n));
+    for (n, size) in &stale {
+        let mut content = vec![0u8, 0, 0x27, 0x0a];
+        content.resize((*size).max(4), 0);
+        std::fs::write(at(n), content).map_err(|_| BadCase)?;
+    }
+    let path = at(&name);
+    let mut out: Vec<W> = vec![];
+    let wr = std::panic::catch_unwind(std::panic::AssertUnwindSafe(|| -> Result<Vec<W>, Error> {
+        let mut o = vec![];
+        if complete {
+            let tb = dbase::TableWriterBuilder::new().add_numeric_field("idx".try_into().unwrap(), 10, 0);
+            let mut w = Writer::from_path(&path, tb)?;
+            o.push(calls.len() as W);
+            for (i, (kind, s)) in calls.iter().enumerate() {
+                let mut rec = dbase::Record::default();
+                match kind {
+                    0 => { rec.insert("idx".to_string(), dbase::FieldValue::Numeric(Some(i as f64))); }
+                    1 => {}
+                    _ => { rec.insert("idx".to_string(), dbase::FieldValue::Character(Some("x".to_string()))); }
+                }
+                let s = s.as_ref().unwrap();
+                let r = with_concrete!(s, x => w.write_shape_and_record(x, &rec), unreachable!());
+                render_unit_res(&r, &mut o);
+            }
+        } else {
+            let mut w = ShapeWriter::from_path(&path)?;
+            let mut results = vec![];
+            for (_, s) in &calls {
+                match s {
+                    None => results.push(w.finalize()),
+                    Some(s) => results.push(with_concrete!(s, x => w.write_shape(x), unreachable!())),
+                }
+            }
+            if ending == 1 {
+                results.push(w.finalize());
+            }
+            drop(w);
+            o.push(results.len() as W);
+            for r in &results {
+                render_unit_res(r, &mut o);
+            }
+        }
+        Ok(o)
+    }));
+    match wr {
+        Err(_) => {
+            let _ = std::fs::remove_dir_all(&dir);
+            return Ok(vec![-4]);
+        }
+        Ok(Err(e)) => {
+            out.push(-6);
+            render_error(&e, &mut out);
+            let _ = std::fs::remove_dir_all(&dir);
+            return Ok(out);
+        }
+        Ok(Ok(o)) => out.extend(o),
+    }
+    if rmname.is_empty() {
+        out.push(0);
+    } else {
+        out.push(std::fs::remove_file(at(&rmname)).is_ok() as W);
+    }
+    out.push(std::fs::read_dir(&dir).map(|d| d.count() as W).unwrap_or(-1));
+    for (q, want) in &queries {
+        match std::fs::read(at(q)) {
+            Err(_) => out.push(-1),
+            Ok(b) if b.len() >= 4 && b[..4] == [0, 0, 0x27, 0x0a] => {
+                out.push(b.len() as W);
+                if *want {
+                    out.extend(b.iter().map(|x| *x as W));
+                }
+            }
+            Ok(_) => out.push(-2),
+        }
+    }
+    let rr = std::panic::catch_unwind(std::panic::AssertUnwindSafe(|| -> Vec<W> {
+        let mut o: Vec<W> = vec![];
+        if complete {
+            match Reader::from_path(&path) {
+                Err(e) => { o.push(1); render_error(&e, &mut o); }
+                Ok(mut reader) => { o.push(0); run_pair_ops(&mut reader, &ops, &mut o); }
+            }
+        } else {
+            match ShapeReader::from_path(&path) {
+                Err(e) => { o.push(1); render_error(&e, &mut o); }
+                Ok(reader) => {
+                    o.push(0);
+                    let h = *reader.header();
+                    o.extend([h.file_length as W, h.shape_type as i32 as W, h.version as W]);
+                    o.extend([
+                        fb(h.bbox.min.x), fb(h.bbox.min.y), fb(h.bbox.max.x), fb(h.bbox.max.y),
+                        fb(h.bbox.min.z), fb(h.bbox.max.z), fb(h.bbox.min.m), fb(h.bbox.max.m),
+                    ]);
+                    let cap = std::fs::metadata(&path).map(|m| m.len() as usize / 12).unwrap_or(0)
+                        + std::fs::metadata(path.with_extension("shx")).map(|m| m.len() as usize / 8).unwrap_or(0) + 2;
+                    run_rops::<_, Shape>(reader, &ops, cap, &mut o);
+                }
+            }
+        }
+        o
+    }));
+    match rr {
+        Ok(o) => out.extend(o),
+        Err(_) => out.push(2),
+    }
+    let _ = std::fs::remove_dir_all(&dir);
+    Ok(out)
+}
+
 fn run_case(v: &[W]) -> Vec<W> {
     let mut c = Cur::new(v);
     let r = match c.next() {
@@ -909,6 +1097,7 @@ fn run_case(v: &[W]) -> Vec<W> {
         Ok(K_PAIR) => case_pair(&mut c),
         Ok(K_COPY) => case_copy(&mut c),
         Ok(K_PAIR_ALLOC) => case_pair_alloc(&mut c),
+        Ok(K_PATH) => case_path(&mut c),
         _ => Err(BadCase),
     };
     match r {
